@@ -518,6 +518,22 @@ def work_gfx(cfg):
             run_case(env, part, kind, stmt, allowed, restore_view=True)
             if env.dead:
                 return part
+        # a VIEW statement that is refused changes nothing: the configuration's viewport stays in force
+        W, Hh = env.g.w, env.g.h
+        c = env.c
+        for bad in (b'VIEW (9,3)-(9,%d),%d,%d' % (Hh - 4, c, c), b'VIEW SCREEN (3,7)-(%d,7),%d' % (W - 4, c),
+                    b'VIEW (2,2)-(%d,%d),300' % (W - 3, Hh - 3), b'VIEW SCREEN (2,2)-(%d,%d),%d,300' % (W - 3, Hh - 3, c),
+                    b'VIEW (2,2)-(%d,%d),%d' % (W + 10, Hh - 3, c), b'VIEW (2,2)-(10,10),"a"'):
+            r, _, _ = run_case(env, part, 'view-refused', bad)
+            if env.dead:
+                return part
+            if r.err is None and r.exc is None:
+                # (accepted after all: not what this case is for)
+                env.reissue_view()
+                continue
+            run_case(env, part, 'after-refused-view', b'LINE (-30000,-30000)-(30000,30000),%d,BF' % c, restore_view=True)
+            if env.dead:
+                return part
         env.check_clean('run')
         part.sample({'cfg': list(cfg), 'first': stmts[0][1], 'n': len(stmts)})
     finally:
